@@ -47,6 +47,25 @@ def S():
 
 
 def element(rng, c):
+    # one value in five is of a special kind (identity, pure translation, prismatic or pure-rotation twist, half turn about a
+    # coordinate axis ...), so that an object holding several values usually mixes kinds: a vectorised method must choose per value
+    if rng.random() < 0.2:
+        k = int(rng.integers(3))
+        if c == 'SO2':
+            return ref.rot2([0.0, math.pi, math.pi / 2][k])
+        if c == 'SE2':
+            return np.array([[1.0, 0, rng.uniform(-9, 9)], [0, 1, rng.uniform(-9, 9)], [0, 0, 1]]) if k else np.eye(3)
+        if c == 'SO3':
+            return [np.eye(3), np.diag([1.0, -1, -1]), ref.rot(np.eye(3)[2], rng.uniform(0.05, 3.0))][k]
+        if c == 'SE3':
+            return [np.eye(4), ref.rt2tr(np.eye(3), gen.transl(rng, hi=1e3)), ref.rt2tr(ref.rot(np.eye(3)[2], rng.uniform(0.05, 3.0)), np.zeros(3))][k]
+        if c == 'Quaternion':
+            return [np.r_[rng.uniform(0.5, 2), 0, 0, 0], np.r_[0, gen.vec(rng, 3, 1e-2, 1e2)], np.eye(4)[rng.integers(4)]][k]
+        if c == 'UnitQuaternion':
+            return [np.r_[1.0, 0, 0, 0], np.r_[0, gen.unit_axis(rng)], np.r_[-1.0, 0, 0, 0]][k]
+        if c == 'Twist2':
+            return [np.r_[gen.vec(rng, 2, 1e-2, 1e2), 0.0], np.r_[0.0, 0, rng.uniform(-3, 3)], np.r_[gen.unit_axis(rng)[:2], 0.0]][k]
+        return [np.r_[gen.vec(rng, 3, 1e-2, 1e2), 0, 0, 0], np.r_[0.0, 0, 0, gen.unit_axis(rng) * rng.uniform(0.1, 3)], np.r_[gen.unit_axis(rng), 0, 0, 0]][k]
     if c == 'SO2':
         return gen.so2(rng)
     if c == 'SE2':
